@@ -7,7 +7,8 @@ from __future__ import annotations
 import json
 import os
 
-SCHEMA_DIR = '/repo/bridge_env/data_handler/json_handler'
+SCHEMA_DIR = os.path.join(os.environ.get('VERIF_REPO') or '/repo',
+                          'bridge_env/data_handler/json_handler')
 
 _TYPES = {
     'object': lambda v: isinstance(v, dict),
